@@ -36,7 +36,7 @@ pub const CONTEXTS: [&str; 14] = [
 /// 127 levels of nesting in one declaration, where every statement, expression or type inside
 /// another one is a level (a statement of a function body is level 1, the value of an assignment
 /// level 2, the type of a parameter level 1).
-pub const PUMPS: [(&str, &str, &str, &str, bool, usize); 34] = [
+pub const PUMPS: [(&str, &str, &str, &str, bool, usize); 39] = [
 	("call arguments", "fn f(){g(", "a,", ");}", false, usize::MAX),
 	("call arguments literal", "fn f(){g(", "1,", ");}", false, usize::MAX),
 	("array elements", "fn f(){x=[", "a,", "];}", false, usize::MAX),
@@ -62,6 +62,13 @@ pub const PUMPS: [(&str, &str, &str, &str, bool, usize); 34] = [
 	("pointer types", "fn f(a:", "&", "i32){}", false, 126),
 	("arraylike types", "fn f(a:", "[]", "i32){}", false, 126),
 	("declarations", "", "fn f(){}", "\n", false, usize::MAX),
+	// many declarations that each nest a little: a depth counter that is not balanced within one
+	// declaration (return values, blocks, parentheses, types, literals) adds up across them
+	("functions with a return value", "", "fn f()->i32{return:(1)}", "\n", false, usize::MAX),
+	("functions with nested blocks", "", "fn f(){{{x=[1];}}}", "\n", false, usize::MAX),
+	("constants with parentheses", "", "const a:i32=((1)+(2));", "\n", false, usize::MAX),
+	("structures with nested types", "", "struct S{a:&&[1][]i32,}", "\n", false, usize::MAX),
+	("functions with nested parameter types and a broken body", "", "fn f(a:&[2]&i32){x=((1);}", "\n", false, 0),
 	("imports", "", "import \"a\";", "\n", false, usize::MAX),
 	("constants", "", "const a:i32=1;", "\n", false, usize::MAX),
 	("else-if chain", "fn f(){", "if a==a{}else ", "{}}", false, 126),
